@@ -24,7 +24,7 @@ ASSUMPTIONS = [
     "a group member is 'a non-amino-acid' when it is not a one-letter code of the 20 standard residues in either case",
 ]
 REQUIRED = {"all": ["omega_identity", "kappa_identity", "swap_pairs", "complement_pairs", "case_order_variants",
-                    "invalid_groups_rejected", "nontrivial_two_group", "omega_sequence_checked"]}
+                    "invalid_groups_rejected", "nontrivial_two_group", "omega_sequence_checked", "objects_with_phosphosites"]}
 NSEQ = {"quick": 350, "thorough": 3500}
 HI = {"quick": 80, "thorough": 200}
 BAD_MEMBERS = ["B", "X", "Z", "J", "O", "U", "1", "0", "*", "-", " ", "", "DE", "KR", "ST", "ALA", "Ala", 3, None, 1.5,
@@ -110,6 +110,12 @@ def judge(case, rep, S):
     rng = gen.sub_rng(case["o"], ID)
     SP = S["SP"]
     obj = SP(seq)
+    if rng.random() < 0.4:
+        # phosphosites are bookkeeping for the phospho-queries only: they must not leak into Omega / kappa_X
+        sty = [i + 1 for i, c in enumerate(seq) if c in "STY"]
+        if sty:
+            obj.set_phosphosites(rng.sample(sty, min(len(sty), rng.randint(1, 4))))
+            rep.cnt("objects_with_phosphosites")
     # --- Omega identities
     om = obj.get_Omega()
     rec = "".join("E" if c in "PEDKR" else "K" for c in seq)
